@@ -115,8 +115,10 @@ def make_service():
     s.register_method(M_EMPTY, Throwaway().handle)
     import gc
     gc.collect()
-    s.register_method(M_NONE, h_none)
-    s.register_method(M_REJECT, h_reject)
+    # the method table is a public dict: one method is put there directly, one is registered and then replaced in place
+    s.methods[M_NONE] = h_none
+    s.register_method(M_REJECT, h_none)
+    s.methods[M_REJECT] = h_reject
     # the service's announcement history is no part of how it answers calls: every other service object has been announced on one
     # (never started) discovery stack and on a second one, and withdrawn again from the first - its endpoint stays open
     _MADE[0] += 1
